@@ -70,7 +70,7 @@ theorem C01_wire_of_send (m : Message) (h : Header) (hwf : WellFormed m h) (g : 
       simp only [qfields, List.mem_map] at hf
       obtain ⟨x, hx, rfl⟩ := hf
       exact hwf.encodable x hx
-    obtain ⟨h1, _⟩ := H3.Props.C11.C11_encode_then_rfc_decode_closed _ hfs
+    obtain ⟨h1, _⟩ := H3.Props.C11.C11_encode_then_rfc_decode_closed _ (fun f hf => (hfs f hf).writable)
     have h2 := (H3.Props.C11.C10_own_encoding_exact_closed _ hfs 0).1
     unfold Qpack.sendSite
     rw [h1]
@@ -131,14 +131,14 @@ theorem C01_wire_is_valid_message (m : Message) (h : Header) (hwf : WellFormed m
       simp only [qfields, List.mem_map] at hf
       obtain ⟨x, hx, rfl⟩ := hf
       exact hwf.encodable x hx
-    exact (H3.Props.C11.C11_encode_then_rfc_decode_closed _ hfs).2.1
+    exact (H3.Props.C11.C11_encode_then_rfc_decode_closed _ (fun f hf => (hfs f hf).writable)).2.1
   · intro t ht
     have hfs : ∀ f ∈ qfields (Header.trailer (mapOf t)).wireFields, H3.Qpack.Lemmas.Encodable f := by
       intro f hf
       simp only [qfields, List.mem_map] at hf
       obtain ⟨x, hx, rfl⟩ := hf
       exact hwf.trailersEncodable t ht x hx
-    have := (H3.Props.C11.C11_encode_then_rfc_decode_closed _ hfs).2.1
+    have := (H3.Props.C11.C11_encode_then_rfc_decode_closed _ (fun f hf => (hfs f hf).writable)).2.1
     rw [(H3.Props.C12.C12_sent_response_trailer_values 0 (mapOf t)).2] at this
     unfold trailerSection fieldSection
     rw [(H3.Props.C12.C12_sent_response_trailer_values 0 (mapOf t)).2]
